@@ -475,6 +475,23 @@ unsafe impl Kernel<f32, f32, f32> for Avx512Kernel {
 // K tile size for int8 kernels.
 const K_TILE: usize = 4;
 
+/// Return the zero points for an output tile's rows or columns.
+///
+/// These are the zero points supplied with the GEMM call, if any. Otherwise
+/// they are the ones recorded in the panel when the input was packed. The two
+/// differ when the input was prepacked, as zero points are not known then.
+fn tile_zero_points<T: Copy + Into<i32>, const N: usize>(
+    quant: Option<QuantParams<T>>,
+    packed_zero_points: [i32; N],
+) -> [i32; N] {
+    match quant {
+        Some(quant) => {
+            std::array::from_fn(|i| quant.zero_point.get(i).map(|&zp| zp.into()).unwrap_or(0))
+        }
+        None => packed_zero_points,
+    }
+}
+
 pub struct Avx2Int8Kernel {
     isa: Avx2Isa,
 }
@@ -609,8 +626,8 @@ unsafe impl Kernel<u8, i8, i32> for Avx2Int8Kernel {
         depth: usize,
         _alpha: f32,
         beta: i32,
-        _a_quant: Option<QuantParams<u8>>,
-        _b_quant: Option<QuantParams<i8>>,
+        a_quant: Option<QuantParams<u8>>,
+        b_quant: Option<QuantParams<i8>>,
     ) {
         let a_data = match a {
             Lhs::Packed(data) => data,
@@ -619,6 +636,8 @@ unsafe impl Kernel<u8, i8, i32> for Avx2Int8Kernel {
 
         let (a_data, a_meta) = packing::int8::extract_packed_a::<{ Self::MR }>(a_data);
         let (b, b_meta) = packing::int8::extract_packed_b::<{ Self::NR }>(b);
+        let a_zero_points = tile_zero_points(a_quant, a_meta.zero_points);
+        let b_zero_points = tile_zero_points(b_quant, b_meta.zero_points);
 
         const NR_REGS: usize = Avx2Int8Kernel::NR / AVX2_X32_LANES;
         simd_int8_gemm::<_, _, { Self::MR }, { Self::NR }, NR_REGS>(
@@ -631,8 +650,8 @@ unsafe impl Kernel<u8, i8, i32> for Avx2Int8Kernel {
             used_cols,
             depth,
             beta != 0, // accumulate
-            a_meta.zero_points,
-            b_meta.zero_points,
+            a_zero_points,
+            b_zero_points,
             &a_meta.row_sums,
             &b_meta.col_sums,
             self.isa,
@@ -835,8 +854,8 @@ unsafe impl Kernel<u8, i8, i32> for Avx512Int8Kernel {
         depth: usize,
         _alpha: f32,
         beta: i32,
-        _a_quant: Option<QuantParams<u8>>,
-        _b_quant: Option<QuantParams<i8>>,
+        a_quant: Option<QuantParams<u8>>,
+        b_quant: Option<QuantParams<i8>>,
     ) {
         let a_data = match a {
             Lhs::Packed(data) => data,
@@ -845,6 +864,8 @@ unsafe impl Kernel<u8, i8, i32> for Avx512Int8Kernel {
 
         let (a_data, a_meta) = packing::int8::extract_packed_a::<{ Self::MR }>(a_data);
         let (b, b_meta) = packing::int8::extract_packed_b::<{ Self::NR }>(b);
+        let a_zero_points = tile_zero_points(a_quant, a_meta.zero_points);
+        let b_zero_points = tile_zero_points(b_quant, b_meta.zero_points);
 
         const NR_REGS: usize = Avx512Int8Kernel::NR / AVX512_X32_LANES;
         if let Some(vnni_dot) = self.vnni_dot {
@@ -858,8 +879,8 @@ unsafe impl Kernel<u8, i8, i32> for Avx512Int8Kernel {
                 used_cols,
                 depth,
                 beta != 0, // accumulate
-                a_meta.zero_points,
-                b_meta.zero_points,
+                a_zero_points,
+                b_zero_points,
                 &a_meta.row_sums,
                 &b_meta.col_sums,
                 vnni_dot,
@@ -875,8 +896,8 @@ unsafe impl Kernel<u8, i8, i32> for Avx512Int8Kernel {
                 used_cols,
                 depth,
                 beta != 0, // accumulate
-                a_meta.zero_points,
-                b_meta.zero_points,
+                a_zero_points,
+                b_zero_points,
                 &a_meta.row_sums,
                 &b_meta.col_sums,
                 self.isa, // Use non-VNNI dot product
